@@ -17,7 +17,7 @@ func init() {
 	register(&Prop{
 		ID:    "C11",
 		Level: "exploration",
-		Rule: "case = (set of pending client commands of every kind the client parses data for: FETCH, UID FETCH, LIST, STATUS, SEARCH, UID SEARCH RETURN, SORT, THREAD, GETQUOTA, GETQUOTAROOT, GETMETADATA, NAMESPACE, COPY, MOVE, EXPUNGE, CAPABILITY, ENABLE; a byzantine scripted server that sends grammar-generated responses of all those kinds plus SELECT-time codes, with token- and byte-level mutations, boundary numbers 0 / 2^32-1 / 2^32 / 2^63-1 / overflow, '*' and open ranges in result sets, nesting depths 10..300000 in body structures, threads, envelopes and lists, unmatched continuation requests, unknown tags, literal size lies and literals announcing 2^29..2^63 bytes in buffered-string positions, raw garbage, then completes or drops the commands), segmentation and schedule. The caller drains every command and calls every accessor on everything delivered. " +
+		Rule: "case = (set of pending client commands of every kind the client parses data for: FETCH, UID FETCH, LIST, STATUS, SEARCH, UID SEARCH RETURN, SORT, THREAD, GETQUOTA, GETQUOTAROOT, GETMETADATA, NAMESPACE, COPY, MOVE, EXPUNGE, CAPABILITY, ENABLE; a byzantine scripted server that sends grammar-generated responses of all those kinds plus SELECT-time codes, with token- and byte-level mutations, boundary numbers 0 / 2^32-1 / 2^32 / 2^63-1 / overflow, '*' and open ranges in result sets, nesting depths 10..300000 in body structures, threads, envelopes and lists, unmatched continuation requests, unknown tags, literal size lies and literals announcing 2^29..2^63 bytes in buffered-string positions, raw garbage, histories of empty lists followed by nesting at the decoder's cap; optionally LOGIN / UNAUTHENTICATE / LOGIN before anything else; then completes or drops the commands), segmentation and schedule. The caller drains every command and calls every accessor on everything delivered. " +
 			"Non-trivial: at least one hostile line was sent while commands were pending. Distinct: distinct event-log hashes.",
 		Components:   "real: imapclient.Client and all its response parsers, internal/imapwire decoder, imap number sets (woven); stub: byzantine scripted server, network, clock, scheduler",
 		Assumptions:  []string{"time growth is not measured (the clock is simulated): super-linear running time is out of reach of this technique; memory is measured coarsely (a run that allocates more than 256 MiB for less than 4 MiB of server data is an amplification); unbounded recursion is caught as a stack-overflow crash under a 64 MiB stack cap", "enumerating accessors (Nums, AllSeqNums, AllUIDs) are only invoked on sets whose cardinality, computed by the harness in 64-bit arithmetic, is below 10^6"},
